@@ -8,6 +8,7 @@ import (
 	"context"
 	"database/sql/driver"
 	"fmt"
+	"runtime"
 	"sort"
 	"strings"
 	"sync"
@@ -61,12 +62,17 @@ type World struct {
 	Panics   []string
 
 	// observation
-	OnApply   []func(*Applied)
-	StmtLog   []string
-	LogStmts  bool
-	Ledger    []*Txn
-	Unknown   []string // unknown statements / engine errors
-	Counters  map[string]int
+	OnApply  []func(*Applied)
+	StmtLog  []string
+	LogStmts bool
+	Ledger   []*Txn
+	Unknown  []string // unknown statements / engine errors
+	Counters map[string]int
+	// OnIdle is called by the scheduler when nothing is parked and virtual time is about to pass
+	// (at most once per IdleEvery of virtual time): background dynamics such as replication progress
+	OnIdle              func()
+	IdleEvery           time.Duration
+	lastIdle            time.Duration
 	ZKBlockDisconnected bool // requests of a disconnected client park instead of failing with ErrNoServer
 	ZKAutoExpire        bool // cut sessions expire by themselves after the session timeout (daemon mode)
 }
@@ -140,12 +146,12 @@ func (w *World) Reach(a, b string) bool {
 type DevKind int
 
 const (
-	DevNone DevKind = iota
-	DevErr           // the call fails without effect (flavour in Arg)
-	DevLost          // the effect is applied, the caller gets an error
-	DevHang          // SQL: the call parks until the caller's deadline
-	DevCrashBefore   // the calling mysync process dies just before the call
-	DevCrashAfter    // ... just after the call took effect
+	DevNone        DevKind = iota
+	DevErr                 // the call fails without effect (flavour in Arg)
+	DevLost                // the effect is applied, the caller gets an error
+	DevHang                // SQL: the call parks until the caller's deadline
+	DevCrashBefore         // the calling mysync process dies just before the call
+	DevCrashAfter          // ... just after the call took effect
 	DevTargetDownBefore
 	DevTargetDownAfter
 	DevPreempt // run the Arg-th other pending call (in arrival order) instead
@@ -196,7 +202,25 @@ type Call struct {
 	Ctx    context.Context
 
 	seq   int
+	gid   uint64 // id of the calling goroutine: creation order breaks ties between identical calls
+	key   string
 	reply chan Reply
+}
+
+// goid returns the id of the calling goroutine. Ids grow in creation order; with one P they are
+// allocated sequentially, so the relative order of two goroutines of one execution is fixed by
+// the program, not by the scheduler.
+func goid() uint64 {
+	var buf [64]byte
+	n := runtime.Stack(buf[:], false)
+	var id uint64
+	for _, c := range buf[10:n] {
+		if c < '0' || c > '9' {
+			break
+		}
+		id = id*10 + uint64(c-'0')
+	}
+	return id
 }
 
 type Reply struct {
@@ -232,6 +256,8 @@ func (w *World) Now() time.Duration {
 // Gate parks the calling goroutine until the scheduler answers the call.
 func (w *World) Gate(c *Call) Reply {
 	c.reply = make(chan Reply, 1)
+	c.gid = goid()
+	c.key = c.Proc + "|" + c.Target + "|" + c.Kind + "|" + c.Op
 	w.mu.Lock()
 	c.seq = w.seq
 	w.seq++
@@ -279,8 +305,17 @@ func removeCall(l []*Call, c *Call) []*Call {
 func (w *World) pendingSnapshot() []*Call {
 	w.mu.Lock()
 	defer w.mu.Unlock()
+	// Canonical order of the parked calls. It must not depend on the order in which goroutines
+	// woken at the same virtual instant happened to run (the runtime's order among timers with
+	// equal deadlines depends on process history): the SET of parked calls after synctest.Wait is
+	// independent of it, so order by call identity, then by goroutine creation order.
 	r := append([]*Call(nil), w.pending...)
-	sort.Slice(r, func(i, j int) bool { return r[i].seq < r[j].seq })
+	sort.Slice(r, func(i, j int) bool {
+		if r[i].key != r[j].key {
+			return r[i].key < r[j].key
+		}
+		return r[i].gid < r[j].gid
+	})
 	return r
 }
 
@@ -313,6 +348,10 @@ func (w *World) RunUntil(done <-chan struct{}) {
 			}
 			continue
 		default:
+		}
+		if w.OnIdle != nil && w.Now()-w.lastIdle >= w.IdleEvery {
+			w.lastIdle = w.Now()
+			w.OnIdle()
 		}
 		select {
 		case <-done:
